@@ -68,17 +68,23 @@ func debugOnlyGuard(m *vmModel, fn *ssa.Function, b *ssa.BasicBlock) (bool, stri
 }
 
 func isDebugValue(m *vmModel, fn *ssa.Function, v ssa.Value, depth int) bool {
+	return debugPolarity(m, fn, v, depth) != 0
+}
+
+// debugPolarity: +1 when v is true exactly when the Debug option is set, -1 when it is true exactly when Debug is not set,
+// 0 when v is not derived from the option.
+func debugPolarity(m *vmModel, fn *ssa.Function, v ssa.Value, depth int) int {
 	if depth > 6 {
-		return false
+		return 0
 	}
 	switch x := v.(type) {
 	case *ssa.UnOp:
 		if x.Op.String() == "!" {
-			return isDebugValue(m, fn, x.X, depth+1)
+			return -debugPolarity(m, fn, x.X, depth+1)
 		}
 		if fa, ok := x.X.(*ssa.FieldAddr); ok {
 			if isNamed(fa.X.Type(), modPath+"/vm", "Options") && types.Identical(fieldOfAddr(fa).Type(), types.Typ[types.Bool]) {
-				return true
+				return 1
 			}
 		}
 		if fv, ok := x.X.(*ssa.FreeVar); ok {
@@ -86,7 +92,7 @@ func isDebugValue(m *vmModel, fn *ssa.Function, v ssa.Value, depth int) bool {
 			if al, ok := b.(*ssa.Alloc); ok {
 				for _, ref := range *al.Referrers() {
 					if st, ok := ref.(*ssa.Store); ok && st.Addr == ssa.Value(al) {
-						return isDebugValue(m, fn.Parent(), st.Val, depth+1)
+						return debugPolarity(m, fn.Parent(), st.Val, depth+1)
 					}
 				}
 			}
@@ -94,16 +100,16 @@ func isDebugValue(m *vmModel, fn *ssa.Function, v ssa.Value, depth int) bool {
 		if al, ok := x.X.(*ssa.Alloc); ok {
 			for _, ref := range *al.Referrers() {
 				if st, ok := ref.(*ssa.Store); ok && st.Addr == ssa.Value(al) {
-					return isDebugValue(m, fn, st.Val, depth+1)
+					return debugPolarity(m, fn, st.Val, depth+1)
 				}
 			}
 		}
 	case *ssa.FreeVar:
 		if b := bindingOf(fn, x); b != nil {
-			return isDebugValue(m, fn.Parent(), b, depth+1)
+			return debugPolarity(m, fn.Parent(), b, depth+1)
 		}
 	}
-	return false
+	return 0
 }
 
 // protectedCalls returns, for fn, the set of call instructions executed while a recover defer of fn is active.
@@ -131,7 +137,13 @@ func protectedCalls(m *vmModel, fn *ssa.Function) (prot map[ssa.Instruction]bool
 				db := d.Block()
 				if len(db.Preds) == 1 {
 					g := db.Preds[0]
-					if iff, ok := g.Instrs[len(g.Instrs)-1].(*ssa.If); ok && isDebugValue(m, fn, iff.Cond, 0) {
+					iff, ok := g.Instrs[len(g.Instrs)-1].(*ssa.If)
+					pol := 0
+					if ok {
+						pol = debugPolarity(m, fn, iff.Cond, 0)
+					}
+					// the handler is installed on the side where Debug is NOT set: the other way round, ordinary runs have no handler
+					if ok && ((pol < 0 && g.Succs[0] == db) || (pol > 0 && g.Succs[1] == db)) {
 						if (g == in.Block() && false) || g.Dominates(in.Block()) && g != in.Block() && !reachableAvoidingBoth(g, in.Block(), db) {
 							prot[in] = true
 						} else if g.Dominates(in.Block()) && g != in.Block() {
@@ -196,6 +208,38 @@ func checkC01(p *Program, r *Report) {
 	allDefers := map[*ssa.Function][]*ssa.Defer{}
 	for _, fn := range m.fns {
 		prot[fn], allDefers[fn] = protectedCalls(m, fn)
+	}
+	// R2 (all handlers): every deferred recover handler of vm is installed unconditionally or on the side of a test of the
+	// Debug option where the option is NOT set. A handler that is local to one operation (close, send, a reflect call) turns
+	// the panic into an error at that statement, where the nearest try sees it (C09); installed on the wrong side it exists
+	// only in debug runs.
+	nHandlers := 0
+	for _, fn := range m.fns {
+		k := 0
+		for _, d := range allDefers[fn] {
+			k++
+			nHandlers++
+			db := d.Block()
+			why := ""
+			if db != fn.Blocks[0] && !db.Dominates(fn.Blocks[len(fn.Blocks)-1]) || len(db.Preds) == 1 {
+				if len(db.Preds) == 1 {
+					g := db.Preds[0]
+					if iff, ok := g.Instrs[len(g.Instrs)-1].(*ssa.If); ok {
+						switch pol := debugPolarity(m, fn, iff.Cond, 0); {
+						case pol == 0:
+							why = "the handler is installed under a condition that is not the Debug option"
+						case (pol < 0 && g.Succs[0] != db) || (pol > 0 && g.Succs[1] != db):
+							why = "the handler is installed only when the Debug option is set: in ordinary runs the panic of this operation is not turned into an error here (it unwinds to the invocation's boundary, past every enclosing try)"
+						}
+					}
+				}
+			}
+			r.Check(why == "", "C01.R2", fmt.Sprintf("%s|recover handler #%d installed unless Debug", funcName(fn), k), p.Pos(d.Pos()), "unconditional, or on the side of the Debug test where the option is not set", why)
+		}
+	}
+	r.Note("recover_handlers", nHandlers)
+	if esp := p.SSAPkg("env"); esp != nil {
+		locksNotCopied(p, r, append(SrcFuncs(esp), m.fns...), "C01.R7")
 	}
 	// R1: unprotected reachability from exported roots
 	nRoots := 0
